@@ -224,7 +224,7 @@ class RefEval:
                     return 'undefined'
                 if v is NULL or isinstance(v, (ArrLit, ObjLit)):
                     return 'object'
-                return typeof_(it.term(v))
+                return it.typeof_term(it.term(v))
             if op in ('-', '+') and isinstance(v, (int, float)) and not isinstance(v, bool):
                 return -v if op == '-' else v
             return unf(op)(it.term(v))
@@ -263,9 +263,14 @@ class RefEval:
             key = e[2] if k == 'mem' else self.ev(e[2])
             return self.member(o, key)
         if k == 'call':
-            f = it.term(self.ev(e[1]))
+            fv = self.ev(e[1])
+            if fv is UNDEFINED or fv is NULL or isinstance(fv, (ArrLit, ObjLit, str, bool, int, float)):
+                for a in e[2]:
+                    self.ev(a)
+                return UNDEFINED            # a callee that is certainly no function yields undefined
+            f = it.term(fv)
             args = [it.term(self.ev(a)) for a in e[2]]
-            isfn = strict_eq_t(typeof_(f), V.Str(z3.StringVal('function')))
+            isfn = strict_eq_t(it.typeof_term(f), V.Str(z3.StringVal('function')))
             callee = z3.If(isfn, f, NOOP)
             t = callf(len(args))(callee, UNDEF, *args)
             it.axioms.append(callf(len(args))(NOOP, UNDEF, *args) == UNDEF)
@@ -294,8 +299,14 @@ class RefEval:
                     segs.append(('props', cur))
                     cur = []
                     raw = self.ev(p_[1])
+                    if raw is UNDEFINED or raw is NULL:
+                        continue            # spreading null / undefined adds nothing
                     sv = it.term(raw)
-                    if isinstance(raw, (ArrLit, ObjLit, str, bool, int, float)):
+                    if isinstance(raw, ObjLit):
+                        segs.append(('props', cur))
+                        cur = []
+                        segs += raw.segs          # spreading an object literal = its own properties and spreads, in order
+                    elif isinstance(raw, (ArrLit, str, bool, int, float)):
                         segs.append(('spread', raw))
                     else:
                         segs.append(('spread', z3.If(nullish_t(sv), EMPTY, sv)))
@@ -310,10 +321,10 @@ class RefEval:
     def member(self, o, key):
         it = self.it
         t = it.term(o)
+        if o is UNDEFINED or o is NULL:
+            return UNDEFINED         # null-safe read
         if isinstance(o, (ArrLit, ObjLit, str, bool, int, float)):
             safe = t                 # a literal is never null/undefined
-        elif o is UNDEFINED or o is NULL:
-            safe = EMPTY
         else:
             safe = z3.If(nullish_t(t), EMPTY, t)
         kt = it.term(key)
